@@ -230,7 +230,7 @@ Proof.
   - (* pool_is_idle? *)
     destruct (all_inactive (acts s)) eqn:Ea; injection Hs as <-.
     + pose proof (proj1 (all_inactive_acts s) Ea) as Ea'.
-      eapply (main_frame s _ I); [reflexivity|reflexivity|reflexivity|reflexivity| | | | | | ]; cbn.
+      eapply (main_frame s _ I); [reflexivity|reflexivity|reflexivity|reflexivity| | | | | | | | ]; cbn.
       * left; reflexivity.
       * intros v F; discriminate F.
       * intros _. exact Ea'.
@@ -238,34 +238,42 @@ Proof.
       * intros H. exfalso. destruct (i_inj s I H) as [[v Hv]|[F|[a F]]]; try congruence;
           try (rewrite Ea' in Hv; discriminate).
       * apply I.
-    + eapply (main_frame s _ I); [reflexivity|reflexivity|reflexivity|reflexivity| | | | | | ]; cbn.
+      * intros v F; rewrite Em in F; discriminate F.
+      * intros F; discriminate F.
+    + eapply (main_frame s _ I); [reflexivity|reflexivity|reflexivity|reflexivity| | | | | | | | ]; cbn.
       * left; reflexivity.
       * intros v F; discriminate F.
       * intros F; discriminate F.
       * intros a F; discriminate F.
       * intros H. destruct (i_inj s I H) as [[v Hv]|[F|[a F]]]; try congruence. left; eauto.
       * apply I.
+      * intros v F; rewrite Em in F; discriminate F.
+      * intros _ A. rewrite (proj2 (all_inactive_acts s) A) in Ea. discriminate Ea.
   - (* park *)
     destruct (pmtok s); [|discriminate]. injection Hs as <-.
-    eapply (main_frame s _ I); [reflexivity|reflexivity|reflexivity|reflexivity| | | | | | ]; cbn.
+    eapply (main_frame s _ I); [reflexivity|reflexivity|reflexivity|reflexivity| | | | | | | | ]; cbn.
     + left; reflexivity.
     + intros v F; discriminate F.
     + intros F; discriminate F.
     + intros a F; discriminate F.
     + intros H. destruct (i_inj s I H) as [[v Hv]|[F|[a F]]]; try congruence. left; eauto.
     + apply I.
+    + intros v F; rewrite Em in F; discriminate F.
+    + intros F; discriminate F.
   - (* msg_count.load() *)
     injection Hs as <-.
     assert (Q : main_quiet (pmain s) = true) by (rewrite Em; reflexivity).
     pose proof (i_main s I Q) as AllI.
     destruct (quiet_msg s I AllI) as (Emsg & _ & _).
-    eapply (main_frame s _ I); [reflexivity|reflexivity|reflexivity|reflexivity| | | | | | ]; cbn.
+    eapply (main_frame s _ I); [reflexivity|reflexivity|reflexivity|reflexivity| | | | | | | | ]; cbn.
     + left; reflexivity.
     + intros v F; discriminate F.
     + intros _. exact AllI.
     + intros a F; discriminate F.
     + intros _. right; left; reflexivity.
     + intros m n [F|F]; [injection F as <- <-; exact Emsg|eapply i_reads; eauto].
+    + intros v F; rewrite Em in F; discriminate F.
+    + intros F; discriminate F.
 Qed.
 
 Lemma p_step_inv s l s' : Inv s -> p_step barrier_fixed s l = Some s' -> Inv s'.
@@ -275,22 +283,26 @@ Proof.
   - eapply main_step_inv; eauto.
   - destruct (pmain s) eqn:Em; try discriminate. injection Hs as <-.
     assert (Q : main_quiet (pmain s) = true) by (rewrite Em; reflexivity).
-    eapply (main_frame s _ I); [reflexivity|reflexivity|reflexivity|reflexivity| | | | | | ]; cbn.
+    eapply (main_frame s _ I); [reflexivity|reflexivity|reflexivity|reflexivity| | | | | | | | ]; cbn.
     + right; exact Q.
     + rewrite Em. intros v F; discriminate F.
     + intros _. apply (i_main s I Q).
     + rewrite Em. intros a F; discriminate F.
     + intros _. rewrite Em. right; left; reflexivity.
     + apply I.
+    + intros v F; rewrite Em in F; discriminate F.
+    + rewrite Em. intros F; discriminate F.
   - destruct (pmain s) eqn:Em; try discriminate. injection Hs as <-.
     assert (Q : main_quiet (pmain s) = true) by (rewrite Em; reflexivity).
-    eapply (main_frame s _ I); [reflexivity|reflexivity|reflexivity|reflexivity| | | | | | ]; cbn.
+    eapply (main_frame s _ I); [reflexivity|reflexivity|reflexivity|reflexivity| | | | | | | | ]; cbn.
     + left; reflexivity.
     + intros v F; discriminate F.
     + intros _. apply (i_main s I Q).
     + intros a F. injection F as <-. reflexivity.
     + intros _. right; right; eauto.
     + apply I.
+    + intros v F; rewrite Em in F; discriminate F.
+    + intros F; discriminate F.
 Qed.
 
 Theorem pool_run_inv n ls : 1 <= n -> Inv (p_run barrier_fixed (p_init n) ls).
@@ -372,3 +384,74 @@ Lemma pool_fixed_same_schedule :
   let s := p_run barrier_fixed (p_init 2) sched_fixed in
   pmain s = MRead /\ pmsg s = 0%Z /\ pnet s = 0%Z.
 Proof. vm_compute. auto. Qed.
+
+(* ---- no global deadlock: while Executor::run is blocked in park(), some worker can move ---- *)
+Lemma active_in_range s v : wact (W s v) = true -> v < length (pws s).
+Proof.
+  intros H. destruct (Nat.lt_ge_cases v (length (pws s))) as [L|L]; auto.
+  rewrite W_out in H by exact L. discriminate.
+Qed.
+
+Lemma W_nth_error_inv s v : v < length (pws s) -> nth_error (pws s) v = Some (W s v).
+Proof. intros H. unfold W. apply nth_error_nth'. exact H. Qed.
+
+Lemma not_all_inactive_ex l : all_inactive l = false -> exists v, nth v l false = true.
+Proof.
+  unfold all_inactive. induction l as [|b l IH]; cbn [forallb]; [discriminate|].
+  destruct b; cbn [negb andb]; [intros _; exists 0; reflexivity|].
+  intros H. destruct (IH H) as [v Hv]. exists (S v). exact Hv.
+Qed.
+
+Definition worker_enabled (s : pstate) (j : nat) : Prop :=
+  exists c s', p_step barrier_fixed s (LW j c) = Some s'.
+
+Lemma nonparked_enabled s j :
+  Inv s -> j < length (pws s) -> parkish (wpc (W s j)) = false -> worker_enabled s j.
+Proof.
+  intros I Hj P. unfold worker_enabled. cbn [p_step]. rewrite (W_nth_error_inv s j Hj).
+  pose proof (i_pc s I j) as Hpc. pose proof (i_loc s I j) as Hloc. unfold local_ok in Hloc.
+  unfold worker_step.
+  destruct (wpc (W s j)) as [ops| | |ops| | | | | | |v|v] eqn:Epc.
+  - cbn in Hpc. destruct Hpc as [->| ->]; exists PNone; cbn; eauto.
+  - exists PNone. destruct (negb (wact (W s j))); [eauto|]. destruct (only_bit (acts s) j); eauto.
+  - exists PNone. destruct (Nat.eqb (pinj s) 0); eauto.
+  - cbn in Hpc. destruct Hpc as [->|[->|[->|[->| ->]]]]; try discriminate; exists PNone; cbn; eauto.
+  - exists PGiveUp. eauto.
+  - exists PNone. eauto.
+  - exists PNone. destruct (wslot (W s j)); [eauto|]. destruct (wlq (W s j)); eauto.
+  - exists PDone. eauto.
+  - destruct (whand (W s j)) eqn:Eh; [exists PNext|exists PPushLocal]; eauto.
+  - exists PSkip. eauto.
+  - exists PNone. pose proof (i_wact s I j v Epc) as Hv. rewrite (W_nth_error_inv s v Hv).
+    destruct (wact (W s v)); [eauto|]. destruct (Nat.eqb v j); eauto.
+  - exists PNone. destruct (i_unp s I j v Epc) as (A & _). pose proof (active_in_range s v A) as Hv.
+    rewrite (W_nth_error_inv s v Hv). destruct (Nat.eqb v j); eauto.
+Qed.
+
+Theorem pool_no_global_deadlock n ls : 1 <= n ->
+  let s := p_run barrier_fixed (p_init n) ls in
+  pmain s = MPark -> pmtok s = false -> exists j, worker_enabled s j.
+Proof.
+  intros Hn s Em Et. pose proof (pool_run_inv n ls Hn) as I. fold s in I.
+  assert (Hex : (exists v, wact (W s v) = true) \/ forall v, wact (W s v) = false).
+  { destruct (all_inactive (acts s)) eqn:E.
+    - right. apply all_inactive_acts. exact E.
+    - left. destruct (not_all_inactive_ex _ E) as [v Hv]. exists v. rewrite <- acts_nth. exact Hv. }
+  destruct Hex as [[v Hv]|Hall].
+  - pose proof (active_in_range s v Hv) as Lv.
+    destruct (parkish (wpc (W s v))) eqn:P.
+    + destruct (i_wake s I v Hv P) as [T|[[x Hx]|M]].
+      * exists v. unfold worker_enabled. cbn [p_step]. rewrite (W_nth_error_inv s v Lv). unfold worker_step.
+        destruct (wpc (W s v)) as [| | |[|[] [|[] [|]]]| | | | | | | |] eqn:Epc; try discriminate; exists PNone; cbn; rewrite ?T; eauto.
+      * exists x. apply nonparked_enabled; auto.
+        -- destruct (Nat.lt_ge_cases x (length (pws s))) as [L|L]; auto.
+           rewrite W_out in Hx by exact L. discriminate.
+        -- rewrite Hx. reflexivity.
+      * congruence.
+    + exists v. apply nonparked_enabled; auto.
+  - destruct (i_mwake s I Em Hall) as [T|[x Hx]]; [congruence|].
+    exists x. unfold worker_enabled. cbn [p_step].
+    assert (Lx : x < length (pws s)).
+    { destruct (Nat.lt_ge_cases x (length (pws s))) as [L|L]; auto. rewrite W_out in Hx by exact L. discriminate. }
+    rewrite (W_nth_error_inv s x Lx). unfold worker_step. rewrite Hx. exists PNone. cbn. eauto.
+Qed.
